@@ -633,7 +633,8 @@ def run_sim_check(prop, tier, seed, seconds_override=None):
     for (variant, seconds) in phases:
         workers = NPROC  # measured here: 16 sanitizer workers execute ~1.6x the runs of 8 on the 16 cores
         s = Search(binaries[variant], variant, seed, seconds, workers)
-        s.run([j for j in jobs if j[0] == 'vec'] if VARIANTS[variant].get('vec_only') else jobs)
+        # pre-C++17: no aligned operator new, so the standard containers the harness uses as range sources cannot hold the over-aligned element
+        s.run([j for j in jobs if j[0] == 'vec' and j[1] != 'Align_basic'] if VARIANTS[variant].get('vec_only') else jobs)
         searches.append(s)
     cands = [c for s in searches for c in s.cands]
     faults = [f for s in searches for f in s.harness_faults]
